@@ -98,6 +98,9 @@ func runStress(sc StressCase, o rec, opts runOpts) (v pbt.Verdict, hist string) 
 	if sc.Rounds < 1 || sc.Rounds > 16 {
 		return pbt.Bad("invalid case: rounds"), ""
 	}
+	if opts.watchdog <= 0 {
+		opts.watchdog = 20 * time.Second
+	}
 	if o.o != nil {
 		o.o.Journal()
 	}
